@@ -606,6 +606,13 @@ func (s *socket) closeTransport(discard bool) {
 	socket_log.Debug("closing the transport (discard? %t)", discard)
 	if discard {
 		s.Transport().Discard()
+		if s.Transport().ReadyState() == "closing" {
+			// an orderly close is already under way and waits for the client (a polling
+			// transport holds the close packet for the next poll): Transport.Close does
+			// nothing in that state, so a forced close has to end the session itself
+			s.OnClose("forced close")
+			return
+		}
 	}
 	s.Transport().Close(func() { s.OnClose("forced close") })
 }
